@@ -17,27 +17,34 @@ pub fn def_use(
     for location in rd.keys() {
         du.entry(location.clone()).or_default();
         match location.function_location().apply(function).unwrap() {
-            il::RefFunctionLocation::Instruction(_, instruction) => instruction
-                .operation()
-                .scalars_read()
-                .into_iter()
-                .for_each(|scalar_read| {
-                    rd[location].locations().iter().for_each(|rd| {
-                        rd.function_location()
-                            .apply(function)
-                            .unwrap()
-                            .instruction()
-                            .unwrap()
-                            .operation()
-                            .scalars_written()
-                            .into_iter()
-                            .for_each(|scalar_written| {
-                                if scalar_written == scalar_read {
-                                    du.entry(rd.clone()).or_default().insert(location.clone());
-                                }
-                            })
+            il::RefFunctionLocation::Instruction(_, instruction) => {
+                // An instruction reads its operands before it writes: consult
+                // the definitions reaching it, not those it leaves behind.
+                let reaching = reaching_definitions::reaching_before(function, &rd, location)?;
+                instruction
+                    .operation()
+                    .scalars_read()
+                    .into_iter()
+                    .flatten()
+                    .for_each(|scalar_read| {
+                        reaching.locations().iter().for_each(|rd| {
+                            rd.function_location()
+                                .apply(function)
+                                .unwrap()
+                                .instruction()
+                                .unwrap()
+                                .operation()
+                                .scalars_written()
+                                .into_iter()
+                                .flatten()
+                                .for_each(|scalar_written| {
+                                    if scalar_written == scalar_read {
+                                        du.entry(rd.clone()).or_default().insert(location.clone());
+                                    }
+                                })
+                        })
                     })
-                }),
+            }
             il::RefFunctionLocation::Edge(edge) => {
                 if let Some(condition) = edge.condition() {
                     condition.scalars().into_iter().for_each(|scalar_read| {
